@@ -480,9 +480,21 @@ def _r6(run):
             if callee_attr(c) == "clean_lockfiles":
                 n += 1
                 run.note_func(f)
+                live = common.live_worker_withs(project, f, c)
+                if live:
+                    run.violated("C10.R6", f, c, "lock files are cleaned up inside `with %s`: the workers are still alive there (they are flushed and joined when the block "
+                                 "is left), so a lock a worker holds can be deleted under it and a second updater of that tile gets in" % live[0][1], kind="cleanup-too-early")
+                    continue
                 cfg = CFG(f.node)
                 cn = cfg.node_containing(c)
-                par = [x for x in cfg.nodes for cc in cfg.calls_at(x) if callee_attr(cc) in ("_tile_parallel", "_tile_serial", "visit_leaves", "walk")]
+                starters = common.worker_starters(project)
+
+                def is_stage_call(cc):
+                    if callee_attr(cc) in ("_tile_parallel", "_tile_serial", "visit_leaves", "walk"):
+                        return True
+                    g = common.resolve_callee(project, f, cc)
+                    return g is not None and g.qual in starters
+                par = [x for x in cfg.nodes for cc in cfg.calls_at(x) if is_stage_call(cc)]
                 # every parallel/serial stage call dominates the cleanup: cleanup not reachable avoiding them
                 if par and cn is not None:
                     early = cn.id in cfg.reachable(cfg.entry.id, avoid={x.id for x in par}, skip_labels=("exc",))
